@@ -155,7 +155,7 @@ def gen_uvr(g, tier, idx):
     r = g.r
     big = 6 if tier == "quick" else 8
     for _attempt in range(50):
-        style = r.choice(["dyadic", "full", "full", "VeqUt", "kwide", "dominantUV", "indefW", "illR", "isoR", "scaled"])
+        style = r.choice(["dyadic", "full", "full", "VeqUt", "kwide", "dominantUV", "indefW", "illR", "isoR", "scaled", "samediag", "samediag", "lastdiffers", "sametrace"])
         # every (dimension, block size dividing it, encoding) triple first, then random ones
         triples = [(dd, v, e) for dd in range(1, big + 1) for v in divisors(dd) for e in (0, 1)]
         if idx < len(triples):
@@ -166,6 +166,11 @@ def gen_uvr(g, tier, idx):
             enc = r.randint(0, 1)
             proper = [v for v in divs if v < d]
             bs = r.choice(proper) if (proper and r.random() < 0.7) else r.choice(divs + [1, d])
+        if style in ("samediag", "lastdiffers", "sametrace") and idx >= len(triples):
+            # these need a row of >= 2 blocks (of size >= 2 for the first and the last)
+            d = r.choice([4, 6, 6] + ([8] if big >= 8 else []))
+            bs = r.choice([v for v in divisors(d) if 2 <= v < d]) if style != "lastdiffers" else r.choice([v for v in divisors(d) if v < d])
+            enc = 1
         nb = d // bs
         k = r.randint(d + 1, d + 3) if style == "kwide" else r.randint(1, max(1, d + 1))
         b = batch_size(r)
@@ -185,6 +190,19 @@ def gen_uvr(g, tier, idx):
             if style == "isoR":       # isotropic blocks sigma_i^2 I (distinct sigma_i)
                 blocks = [[[(10 ** r.uniform(-1, 1) if a == c else 0.0) for c in range(bs)] for a in range(bs)] for _ in range(nblk)]
                 blocks = [[[blk[0][0] if a == c else 0.0 for c in range(bs)] for a in range(bs)] for blk in blocks]
+            if style == "samediag" and bs >= 2:
+                # the blocks share their diagonal exactly (same variances) and differ in the correlations only
+                sd = [10 ** r.uniform(-0.5, 0.5) for _ in range(bs)]
+                blocks = []
+                for i in range(nblk):
+                    Cm = g.spd(bs, cond=10 ** r.uniform(0.3, 1.5), scale=1.0)
+                    dg = [math.sqrt(Cm[a][a]) for a in range(bs)]
+                    blocks.append([[(sd[a] * sd[a]) if a == c else sd[a] * sd[c] * Cm[min(a, c)][max(a, c)] / (dg[a] * dg[c]) for c in range(bs)] for a in range(bs)])
+            elif style == "lastdiffers" and nblk >= 2:
+                blocks = [[list(row) for row in blocks[0]] for _ in range(nblk - 1)] + [blocks[-1]]      # all blocks equal except the last
+            elif style == "sametrace" and bs >= 2 and nblk >= 2:
+                t0 = sum(blocks[0][a][a] for a in range(bs))                                                # same trace, different blocks
+                blocks = [blocks[0]] + [[[v * t0 / sum(blk[a][a] for a in range(bs)) for v in row] for row in blk] for blk in blocks[1:]]
             su = 10 ** r.uniform(0.5, 1.5) if style == "dominantUV" else 10 ** r.uniform(-1, 0.5)
             U = [[r.uniform(-su, su) for _ in range(k)] for _ in range(d)]
             if style == "VeqUt":
